@@ -136,6 +136,10 @@ func genC03(x *Ctx) *c03Scen {
 				r.Consumes = []string{"application/json"}
 			case 2:
 				r.Produces = []string{"application/xml"}
+			case 3:
+				if tp.Bool() {
+					r.Produces = []string{"application/json", "application/xml"}
+				}
 			}
 			sp.Routes = append(sp.Routes, r)
 			if depth > 0 && !strings.HasSuffix(path, "*}") && tp.Chance(100) {
@@ -192,6 +196,10 @@ func c03Probes(sc *c03Scen) []Probe {
 				add(Probe{Method: "POST", Path: path, CT: "application/json", Body: true})
 				if v == 0 {
 					add(Probe{Method: "GET", Path: path, Accept: "application/xml"})
+					// Accept headers as browsers send them: named types plus a wildcard, so every route stays
+					// acceptable and only specificity may decide
+					add(Probe{Method: "GET", Path: path, Accept: "application/xml;q=0.9, */*;q=0.8"})
+					add(Probe{Method: "GET", Path: path, Accept: "text/html, application/json;q=0.9, */*;q=0.8"})
 					add(Probe{Method: "POST", Path: path})
 					add(Probe{Method: "PUT", Path: path})
 					add(Probe{Method: "GET", Path: path + "/"})
@@ -349,7 +357,7 @@ func runC03(x *Ctx) {
 				return
 			}
 			// oracle B (input-level): the selected route is not dominated by another eligible one
-			if entry == 1 && p.Method == "GET" && p.Accept == "" && got.Status == 200 && got.Routes != "" {
+			if entry == 1 && p.Method == "GET" && (p.Accept == "" || strings.Contains(p.Accept, "*/*")) && got.Status == 200 && got.Routes != "" {
 				c03CheckDominance(x, sc, w, p, got)
 			}
 		}
